@@ -57,6 +57,16 @@ func validYMD(y, m, d *term.Term) *term.Term {
 
 // ordinalNorm: day ordinal of (year, month, day) with Go's normalisation of out-of-range months and days.
 func ordinalNorm(year, month, day *term.Term) (*term.Term, *term.Term) {
+	return ordinalNormD(year, month, day, nil)
+}
+
+// ordinalNormD skips the month normalisation when decide shows the month is certainly within 1..12.
+func ordinalNormD(year, month, day *term.Term, decide func(*term.Term) int8) (*term.Term, *term.Term) {
+	if decide != nil && decide(term.And(term.Sge(month, c64(1)), term.Sle(month, c64(12)))) == 1 {
+		ord := term.Add(term.Add(daysBeforeYear(year), monthOffset(year, month)), term.Sub(day, c64(1)))
+		pre := term.And(term.Sge(year, c64(-(1<<33))), term.Sle(year, c64(1<<33)), term.Sge(day, c64(-(1<<40))), term.Sle(day, c64(1<<40)))
+		return ord, pre
+	}
 	const K = int64(1) << 33
 	m0 := term.Add(term.Sub(month, c64(1)), c64(12*K)) // >= 0 for |month| < 2^36
 	q := term.Sub(term.UDiv(m0, c64(12)), c64(K))
@@ -129,8 +139,14 @@ func (ex *Exec) freshYMD(st *State, ord *term.Term) (y, m, d *term.Term) {
 		return c64(yy), c64(mm), c64(dd)
 	}
 	y, m, d = ex.Fresh("Y", term.BV(64)), ex.Fresh("M", term.BV(64)), ex.Fresh("D", term.BV(64))
-	o, _ := ordinalNorm(y, m, d)
-	st.G = term.And(st.G, term.Sge(y, c64(-(1<<33))), term.Sle(y, c64(1<<33)), validYMD(y, m, d), term.Eq(o, ord))
+	// the month is within 1..12 by validity, so the plain (un-normalised) ordinal applies
+	o := term.Add(term.Add(daysBeforeYear(y), monthOffset(y, m)), term.Sub(d, c64(1)))
+	// redundant linear consequences of the closed form (for every year: 146097(Y-1)-591 <= 400*ord(Y,1,1) <= 146097(Y-1)+288,
+	// and the day of the year is 0..365); they let a solver bound the year from the ordinal without inverting the divisions
+	o400 := term.Mul(ord, c64(400))
+	yl := term.Mul(term.Sub(y, c64(1)), c64(146097))
+	lin := term.And(term.Sge(o400, term.Sub(yl, c64(591))), term.Sle(o400, term.Add(yl, c64(146288))))
+	st.G = term.And(st.G, term.Sge(y, c64(-(1<<33))), term.Sle(y, c64(1<<33)), validYMD(y, m, d), term.Eq(o, ord), lin)
 	return
 }
 
@@ -169,7 +185,7 @@ func init() {
 	}
 	Stubs["time.Date"] = func(ex *Exec, c *CallCtx) []*callResult {
 		a := func(i int) *term.Term { return c.Args[i].(*term.Term) }
-		ord, pre := ordinalNorm(a(0), a(1), a(2))
+		ord, pre := ordinalNormD(a(0), a(1), a(2), func(t *term.Term) int8 { return ex.decideCond(c.St, t) })
 		ex.precond(c, c.St, "time.Date-component-range", pre)
 		loc := c.Args[7]
 		off := ex.locOffset(c.St, loc)
